@@ -147,4 +147,73 @@ theorem refuse_only_if {w : World} (h : Inv w) {k : Nat} {o : Obj} (ho : w.objs 
             rw [hok] at hr
             rcases hr with hr | hr <;> cases hr
 
+/-! ## A request refused for the constraints changes nothing either (after the repair) -/
+
+theorem aliasConstraints_err_unchanged {w : World} {i1 i2 : ObjId} (he : (aliasConstraints w i1 i2).err ≠ none) :
+    (aliasConstraints w i1 i2).w = w := by
+  simp only [aliasConstraints] at he ⊢
+  by_cases hg : aliasGuard w i1 i2 = true
+  · simp [hg]
+  · have hg' : aliasGuard w i1 i2 = false := by simpa using hg
+    simp only [hg', Bool.false_eq_true, if_false] at he ⊢
+    simp only [aliasGuard] at hg'
+    simp only [aliasConstraintsL] at he ⊢
+    cases h1 : (w.heap.get i1).con with
+    | none =>
+      cases h2 : (w.heap.get i2).con with
+      | none => rfl
+      | some c2 =>
+        simp only [h1, h2] at he ⊢
+        cases hq : parSetConstraint (w.heap.get i1) c2 with
+        | error e => rfl
+        | ok q => simp [hq] at he
+    | some c1 =>
+      cases h2 : (w.heap.get i2).con with
+      | none => rfl
+      | some c2 =>
+        simp only [h1, h2] at he hg' ⊢
+        by_cases hcc : c1 = c2
+        · simp [hcc]
+        · exfalso
+          simp only [ne_eq, hcc, not_false_eq_true, decide_true, Bool.true_and, Bool.or_eq_false_iff,
+            Bool.not_eq_false'] at hg'
+          obtain ⟨a2, a1⟩ := hg'
+          have hne : i1 ≠ i2 := by
+            rintro rfl
+            rw [h1] at h2; exact hcc (Option.some.inj h2)
+          simp only [ne_eq, hcc, not_false_eq_true, if_true, parSetConstraint, a2, Bool.not_true, Bool.false_eq_true,
+            if_false, putPar_get, hne, a1] at he
+          exact he trivial
+
+/-- **every refusal of the pair form leaves the world exactly as it was**: whatever it raises
+(`ParameterNotFoundException`, `Exception`, `ConstraintException`) -/
+theorem aliasPair_err_unchanged {w : World} (h : Inv w) {k : Nat} {o : Obj} (ho : w.objs k = some o) (p1 p2 : String)
+    (he : (aliasPair w k p1 p2).err ≠ none) : (aliasPair w k p1 p2).w = w := by
+  have hi := h.obj k o ho
+  obtain ⟨s1, s2⟩ := aliasPair_spec hi ho p1 p2
+  cases h1 : find? w.heap o.params (o.pre ++ p1) with
+  | none => exact (s1 (Or.inl h1)).2
+  | some i1 =>
+    cases h2 : find? w.heap o.params (o.pre ++ p2) with
+    | none => exact (s1 (Or.inr h2)).2
+    | some i2 =>
+      obtain ⟨a, b, c, d⟩ := s2 i1 i2 h1 h2
+      by_cases hind : i2 ∈ o.indep
+      swap
+      · exact (a hind).2
+      cases hf : followsLoop w o p2 (o.reg.length + 2) p1 with
+      | none => exact (b hind hf).2
+      | some bb =>
+        cases bb with
+        | true => exact (c hind hf).2
+        | false =>
+          obtain ⟨d1, d2⟩ := d hind hf
+          cases hc : (aliasConstraints w i1 i2).err with
+          | some e =>
+            rw [(d1 e hc).2]
+            exact aliasConstraints_err_unchanged (by rw [hc]; simp)
+          | none =>
+            obtain ⟨_, _, hok, _⟩ := d2 hc
+            exact absurd hok he
+
 end Bpp.Alias
